@@ -1,11 +1,43 @@
-import Driver.Util
-/-! Driver for the `Producer` component (stub until the component is built). -/
+import Afkak.Producer
+import Driver.ProducerCodec
+/-! Line-protocol driver for the Producer model (exe `model_producer`).
+Requests: `reset`, `init …`, one line per event (see `Driver/ProducerCodec.lean`), and the monitor
+requests `trace-begin` / `trace-end <monitors>` (the lines between them are an IMPLEMENTATION trace). -/
 namespace Driver.Producer
+open Afkak.Producer Driver Driver.ProducerCodec
 
-def step (st : Unit) (_line : String) : Unit × List String := (st, ["bad-op"])
+structure DSt where
+  cfg : Option Cfg := none
+  st : St := {}
+  /-- recording an implementation trace for the monitors -/
+  recd : Option (List String) := none
+
+def step (d : DSt) (line : String) : DSt × List String :=
+  match d.recd with
+  | some acc =>
+    match words line with
+    | "trace-end" :: mons =>
+      ({ d with recd := none }, runMonitors d.cfg acc.reverse mons)
+    | _ => ({ d with recd := some (line :: acc) }, [])
+  | none =>
+    match words line with
+    | ["reset"] => ({}, ["ok"])
+    | ["trace-begin"] => ({ d with recd := some [] }, [])
+    | "init" :: args =>
+      match parseCfg args with
+      | some cfg =>
+        let st := St.init cfg
+        ({ d with cfg := some cfg, st := st }, [s!"ok looper={if st.looper then 1 else 0}"])
+      | none => (d, ["bad-op"])
+    | ws =>
+      match d.cfg, parseEv ws with
+      | some cfg, some ev =>
+        let (st', obs) := Afkak.Producer.step cfg d.st ev
+        ({ d with st := st' }, obs.map showOb ++ [showState st'])
+      | _, _ => (d, ["bad-op"])
 
 end Driver.Producer
 
 def main : IO UInt32 := do
-  Driver.loop (← IO.getStdin) (← IO.getStdout) () Driver.Producer.step
+  Driver.loop (← IO.getStdin) (← IO.getStdout) ({} : Driver.Producer.DSt) Driver.Producer.step
   return 0
